@@ -90,6 +90,48 @@ fn ops(e: &'static Engine, l: &'static RwLock<u32>, ops: &str) {
     }
 }
 
+/// quiescent probe of the lock's internal state: with all guards dropped, a writer excludes readers and
+/// writers, readers exclude writers, and the lock is free again afterwards (catches leaked reader / holder counts)
+pub fn probe<T>(e: &'static Engine, l: &RwLock<T>) {
+    fn got<G>(r: Result<G, TryLockError<G>>) -> Option<G> {
+        match r {
+            Ok(g) => Some(g),
+            Err(TryLockError::Poisoned(p)) => Some(p.into_inner()),
+            Err(TryLockError::WouldBlock) => None,
+        }
+    }
+    let w = match got(l.try_write()) {
+        Some(w) => w,
+        None => e.fail("not_released", "probe: try_write() fails although all guards are dropped"),
+    };
+    if got(l.try_read()).is_some() {
+        e.fail("writer_exclusive", "probe: try_read() succeeded while a write guard is held (leaked reader count?)");
+    }
+    if got(l.try_write()).is_some() {
+        e.fail("writer_exclusive", "probe: a second try_write() succeeded while a write guard is held");
+    }
+    drop(w);
+    let r1 = match got(l.try_read()) {
+        Some(r) => r,
+        None => e.fail("not_released", "probe: try_read() fails after the write guard was dropped"),
+    };
+    let r2 = got(l.try_read());
+    if r2.is_none() {
+        e.fail("readers_shared", "probe: a second reader is refused");
+    }
+    if got(l.try_write()).is_some() {
+        e.fail("writer_exclusive", "probe: try_write() succeeded while read guards are held");
+    }
+    drop(r1);
+    if got(l.try_write()).is_some() {
+        e.fail("writer_exclusive", "probe: try_write() succeeded while one read guard is still held");
+    }
+    drop(r2);
+    if got(l.try_write()).is_none() {
+        e.fail("not_released", "probe: the lock is not free after all probe guards were dropped");
+    }
+}
+
 fn run(e: &'static Engine, workers: usize, poisoned: bool, parts: &'static [(char, &'static str)], main_ops: &'static str, cancel: Option<usize>) {
     if needs_rt(parts) {
         rt_init(workers);
@@ -125,6 +167,7 @@ fn run(e: &'static Engine, workers: usize, poisoned: bool, parts: &'static [(cha
         Err(TryLockError::Poisoned(_)) => e.fail("poisoned", "the lock is poisoned although nobody panicked inside it"),
         Err(TryLockError::WouldBlock) => e.fail("not_released", "all guards are dropped but try_write() says WouldBlock"),
     }
+    probe(e, l);
     e.note(&out);
 }
 
@@ -298,6 +341,8 @@ pub fn build(quick: bool) -> Vec<Scenario> {
     for w in [1usize, 2] {
         v.push(mk(w, false, &[('C', "W"), ('C', "W")], "W", Some(0)));
         v.push(mk(w, false, &[('C', "R"), ('C', "W")], "W", Some(0)));
+        v.push(mk(w, false, &[('C', "R"), ('C', "R")], "W", Some(0)));
+        v.push(mk(w, false, &[('C', "R"), ('C', "W")], "R", Some(1)));
     }
     if !quick {
         v.push(mk(2, false, &[('C', "R"), ('C', "W"), ('C', "R")], "W", Some(1)));
